@@ -136,6 +136,8 @@ type Path struct {
 	modelMemo        map[int]*Term
 	modelHits        int
 	pendObl          []pendingObl
+	isInitPath       bool
+	cloneMemo        map[interface{}]interface{}
 }
 
 type pendingObl struct {
@@ -162,6 +164,9 @@ func (p *Path) unsupported(why string) {
 type tolerantFail struct{ why string }
 
 func (p *Path) fresh(prefix string, s Sort) *Term {
+	if p.tolerant > 0 {
+		panic(tolerantFail{"fresh symbolic value in package initialiser"})
+	}
 	p.freshN++
 	return p.ctx.Var(fmt.Sprintf("%s!%d", sanitize(prefix), p.freshN), s)
 }
